@@ -1,8 +1,38 @@
     // ===== src/filter/bcj/x86.rs =====
-    use crate::filter::bcj::verif_kani::bcj_group_roundtrip;
+    use crate::filter::bcj::verif_kani::{bcj_group_roundtrip, bcj_split_homomorphism};
     #[kani::proof]
     #[kani::unwind(14)]
     fn c11_bcj_x86_group() { bcj_group_roundtrip::<10>(BCJFilter::new_x86, 1, 5, 4); }
     #[kani::proof]
     #[kani::unwind(14)]
     fn c11_bcj_x86_short() { bcj_group_roundtrip::<6>(BCJFilter::new_x86, 1, 5, 4); bcj_group_roundtrip::<4>(BCJFilter::new_x86, 1, 5, 4); }
+    #[kani::proof]
+    #[kani::unwind(16)]
+    fn c07_bcj_x86_split_k5_enc() { bcj_split_homomorphism::<9>(BCJFilter::new_x86, 1, 5, true); }
+    #[kani::proof]
+    #[kani::unwind(16)]
+    fn c07_bcj_x86_split_k5_dec() { bcj_split_homomorphism::<9>(BCJFilter::new_x86, 1, 5, false); }
+    #[kani::proof]
+    #[kani::unwind(16)]
+    fn c07_bcj_x86_split_k6_enc() { bcj_split_homomorphism::<9>(BCJFilter::new_x86, 1, 6, true); }
+    #[kani::proof]
+    #[kani::unwind(16)]
+    fn c07_bcj_x86_split_k6_dec() { bcj_split_homomorphism::<9>(BCJFilter::new_x86, 1, 6, false); }
+    #[kani::proof]
+    #[kani::unwind(16)]
+    fn c07_bcj_x86_split_k7_enc() { bcj_split_homomorphism::<9>(BCJFilter::new_x86, 1, 7, true); }
+    #[kani::proof]
+    #[kani::unwind(16)]
+    fn c07_bcj_x86_split_k7_dec() { bcj_split_homomorphism::<9>(BCJFilter::new_x86, 1, 7, false); }
+    #[kani::proof]
+    #[kani::unwind(16)]
+    fn c07_bcj_x86_split_k8_enc() { bcj_split_homomorphism::<9>(BCJFilter::new_x86, 1, 8, true); }
+    #[kani::proof]
+    #[kani::unwind(16)]
+    fn c07_bcj_x86_split_k8_dec() { bcj_split_homomorphism::<9>(BCJFilter::new_x86, 1, 8, false); }
+    #[kani::proof]
+    #[kani::unwind(16)]
+    fn c07_bcj_x86_split_k9_enc() { bcj_split_homomorphism::<9>(BCJFilter::new_x86, 1, 9, true); }
+    #[kani::proof]
+    #[kani::unwind(16)]
+    fn c07_bcj_x86_split_k9_dec() { bcj_split_homomorphism::<9>(BCJFilter::new_x86, 1, 9, false); }
